@@ -42,6 +42,14 @@ def step (s : S) (line : String) : S × String :=
            ({ s with items := o.items }, s!"ok items={fmtList o.items} notifs={";".intercalate (o.notifs.map fmtNotif)}")
          else (s, "bad-op")
        | _, _, _ => (s, "bad-op"))
+    | ["extendself", _] =>
+      -- `c.extend(c)` / `c += c`: the elements the collection had when the call was made
+      let o := slotStep s.kind s.items (.extend s.items)
+      ({ s with items := o.items },
+       (if o.raised then "err" else "ok") ++ s!" items={fmtList o.items} notifs={";".intercalate (o.notifs.map fmtNotif)}")
+    | ["setslicescalar", _, _, _] =>
+      -- `l[a:b] = x` with `x` no iterable: TypeError of the list, before anything is reported (`SOut.err`)
+      if s.kind == .list then (s, s!"err items={fmtList s.items} notifs=") else (s, "bad-op")
     | ["delslice3", a, b, k] =>
       (match a.toNat?, b.toNat?, k.toNat? with
        | some a, some b, some k =>
